@@ -16,6 +16,7 @@ def run(ctx):
     import planlevel
     import prune_corr
     concurrent_runs(ctx)
+    gated_literal_arguments(ctx)
     forgotten_registry(ctx)
     registry_order(ctx)
     planlevel.plan_campaign(ctx, {"C01"}, n_quick=100, n_thorough=2000)
@@ -156,6 +157,63 @@ def concurrent_runs(ctx):
                             ctx.fail("concurrent-runs:start-before-dependency", "two threads running one plan at once: in run %d call %s started before its "
                                      "dependencies %r had finished in that run" % (k, nm, [d for d in deps[nm] if d not in ended]), rep)
                             break
+
+
+def gated_literal_arguments(ctx):
+    """a call takes k literals that are all gated on ONE producer x (add_dependency(x, literal)) and also depends on a slow call y:
+    it starts only after both x and y have finished - however many paths lead from x to it"""
+    import threading
+    import time
+    uj = core.use_repo()
+    for k in (1, 2, 3):
+        for workers in (1, 2, 4):
+            for scheduler in (None, "random"):
+                for y_form in ("argument", "dependency", "gated-literal"):
+                    lock, ev = threading.Lock(), []
+
+                    def mk(nm, dur):
+                        def f(*a, **kw):
+                            with lock:
+                                ev.append(("start", nm))
+                            time.sleep(dur)
+                            with lock:
+                                ev.append(("end", nm))
+                            return nm
+                        f.__name__ = nm
+                        return f
+                    plan = uj.Plan()
+                    x = plan.call(mk("x", 0.0))
+                    y = plan.call(mk("y", 0.12))
+                    lits = []
+                    for i in range(k):
+                        li = plan.lit("gate-%d" % i)
+                        plan.add_dependency(x, li)
+                        lits.append(li)
+                    extra = []
+                    if y_form == "argument":
+                        extra = [y]
+                    t = plan.call(mk("t", 0.0), *lits[:1], *extra, **{"g%d" % i: li for i, li in enumerate(lits[1:])})
+                    if y_form == "dependency":
+                        plan.add_dependency(y, t)
+                    elif y_form == "gated-literal":
+                        ly = plan.lit("gate-y")
+                        plan.add_dependency(y, ly)
+                        plan.add_dependency(ly, t)
+                    ctx.case(("gated-literal-arguments", k, workers, scheduler, y_form))
+                    try:
+                        res = core.call_watched(lambda: uj.run(plan, output=t, max_workers=workers, scheduler=scheduler, progress=None), timeout=30)
+                    except BaseException as e:      # noqa
+                        res = "raised %s: %s" % (type(e).__name__, e)
+                    done = set()
+                    bad = None
+                    for kind, nm in ev:
+                        if kind == "end":
+                            done.add(nm)
+                        elif nm == "t" and not {"x", "y"} <= done:
+                            bad = sorted({"x", "y"} - done)
+                    if res != "t" or bad:
+                        ctx.fail("gated-literals:start-before-dependency", "a call taking %d literal(s) gated on x and depending on the slow call y (%s): run gave %r; the call started before %r had finished"
+                                 % (k, y_form, res, bad), {"gated_literals": k, "max_workers": workers, "scheduler": scheduler, "y_is": y_form, "events": ev})
 
 
 def forgotten_registry(ctx):
